@@ -313,15 +313,18 @@ def alias_env(func):
     import copy
     from .core import walk_local
     binds = {}
+    stmt_of = {}
     for n in walk_local(func):
         if isinstance(n, ast.Assign):
             for t in n.targets:
                 if isinstance(t, ast.Name):
                     binds.setdefault(t.id, []).append(n.value)
+                    stmt_of[t.id] = n
                 elif isinstance(t, (ast.Tuple, ast.List)) and isinstance(n.value, (ast.Tuple, ast.List)) and len(t.elts) == len(n.value.elts):
                     for a, b in zip(t.elts, n.value.elts):
                         if isinstance(a, ast.Name):
                             binds.setdefault(a.id, []).append(b)
+                            stmt_of[a.id] = n
                         else:
                             for x in ast.walk(a):
                                 if isinstance(x, ast.Name):
@@ -341,29 +344,87 @@ def alias_env(func):
                 if isinstance(x, ast.Name):
                     binds.setdefault(x.id, []).append(None)
     args = {a.arg for a in func.args.args + func.args.kwonlyargs} if hasattr(func, "args") else set()
-    return {k: v[0] for k, v in binds.items() if len(v) == 1 and v[0] is not None and k not in args and
-            not isinstance(v[0], (ast.Call, ast.ListComp, ast.GeneratorExp, ast.List, ast.Dict, ast.Set, ast.DictComp, ast.SetComp, ast.Lambda, ast.Yield, ast.Await))}
+    env = {k: v[0] for k, v in binds.items() if len(v) == 1 and v[0] is not None and k not in args and
+           not isinstance(v[0], (ast.Call, ast.ListComp, ast.GeneratorExp, ast.List, ast.Dict, ast.Set, ast.DictComp, ast.SetComp, ast.Lambda, ast.Yield, ast.Await))}
+    env = AliasEnv(env)
+    env.stmt_of = {k: stmt_of[k] for k in env if k in stmt_of}
+    return env
 
 
-def expand(e, env, depth=0):
-    """copy of expression `e` with the names of `env` replaced by what they stand for (recursively)"""
+class AliasEnv(dict):
+    """name -> expression, plus the statement that binds each name (stmt_of)"""
+    stmt_of = {}
+
+
+def _stmt_chain(node):
+    """[(statement, statement list that contains it)] from the innermost statement around `node` outwards"""
+    from .core import parent, FUNC
+    chain = []
+    n = node
+    while n is not None and not isinstance(n, FUNC + (ast.Module, ast.ClassDef, ast.Lambda)):
+        p = parent(n)
+        if isinstance(n, ast.stmt) and p is not None:
+            for field in ("body", "orelse", "finalbody"):
+                lst = getattr(p, field, None)
+                if isinstance(lst, list) and any(x is n for x in lst):
+                    chain.append((n, lst))
+        n = p
+    if isinstance(n, FUNC) and isinstance(node, ast.stmt) is False:
+        pass
+    return chain
+
+
+def _binds(stmts, names):
+    """does any statement of `stmts` (re)bind one of `names`?"""
+    for st in stmts:
+        for x in ast.walk(st):
+            if isinstance(x, ast.Name) and isinstance(x.ctx, (ast.Store, ast.Del)) and x.id in names:
+                return True
+    return False
+
+
+def alias_valid_at(env, name, at):
+    """May `name` be replaced by the expression it was bound to, at the program point of node `at`?  Yes when the binding
+    statement is an earlier sibling of `at` or of one of its ancestors (so it was executed before `at` in the same pass through
+    that block) and no name mentioned in the bound expression is re-bound in the statements in between (the statement containing
+    `at` included).  Without this, `tok = tokens[top.pos]` would be taken for the current `tokens[top.pos]` after `top` moved on,
+    or before `tok` was assigned in this iteration at all."""
+    b = getattr(env, "stmt_of", {}).get(name)
+    if b is None:
+        return False
+    for a, lst in _stmt_chain(at):
+        ib = next((i for i, x in enumerate(lst) if x is b), None)
+        if ib is None:
+            continue
+        ia = next(i for i, x in enumerate(lst) if x is a)
+        if ib >= ia:
+            return False
+        used = {x.id for x in ast.walk(env[name]) if isinstance(x, ast.Name)} | {name}
+        return not _binds(lst[ib + 1:ia + 1], used)
+    return False
+
+
+def expand(e, env, depth=0, at=None):
+    """copy of expression `e` with the names of `env` replaced by what they stand for (recursively).  With `at` (a node of the
+    analysed function, normally the place where `e` is evaluated) a name is replaced only where that is valid, see alias_valid_at."""
     import copy
 
     class _T(ast.NodeTransformer):
         def visit_Name(self, n):
-            if isinstance(n.ctx, ast.Load) and n.id in env and depth < 6:
-                return expand(env[n.id], env, depth + 1)
+            if isinstance(n.ctx, ast.Load) and n.id in env and depth < 6 and (at is None or alias_valid_at(env, n.id, at)):
+                b = getattr(env, "stmt_of", {}).get(n.id)
+                return expand(env[n.id], env, depth + 1, at=(b if at is not None else None))
             return n
     return _T().visit(copy.deepcopy(e))
 
 
-def xnorm(e, env):
-    return norm(expand(e, env))
+def xnorm(e, env, at=None):
+    return norm(expand(e, env, at=at))
 
 
-def xcanon_facts(node, env, stop=None):
+def xcanon_facts(node, env, stop=None, positional=False):
     """canonical must-facts with local single-assignment names expanded"""
     out = set()
     for e, pol in facts(node, stop):
-        out.add(canon_fact(expand(e, env), pol))
+        out.add(canon_fact(expand(e, env, at=(e if positional else None)), pol))
     return out
